@@ -660,9 +660,14 @@ def run_one(cfg, tape: Tape, want_trace=False):
     oracle_ref = [None]
     faults = Faults(tape, cfg, oracle_ref)
     existing = {os.path.normpath(f'{ROOT}/{f}') for f in FILES}
+    # one run in four is a process whose standard descriptors are closed (a daemon): the lock
+    # file may then be opened on descriptor 0, 1 or 2
+    first_fd = 0 if tape.draw(4, 'first_fd') == 3 else 3
     simos = SimOS(k, exists=lambda p: os.path.normpath(p) in existing,
                   create=lambda p: existing.add(os.path.normpath(p)),
-                  edeadlk=cfg.get('edeadlk', True), faults=faults, stats=stats)
+                  edeadlk=cfg.get('edeadlk', True), faults=faults, stats=stats, first_fd=first_fd)
+    if first_fd == 0:
+        stats['probe.descriptors_from_zero'] = stats.get('probe.descriptors_from_zero', 0) + 1
     oracle = Oracle(k, simos, prog)
     oracle.stats = stats
     oracle_ref[0] = oracle
